@@ -151,7 +151,11 @@ pub fn run_scenario(p: &RunParams) {
             fail_on: if p.kind.starts_with("fail") && p.fail_block == idx { Some(p.fail_call) } else { None },
         })
     };
-    let prev = if p.infinite && p.src_len == 7777 {
+    let prev = if p.infinite && p.src_len == 8888 {
+        let (s, o) = PendingSource::<T2>::new();
+        blocks.push(wrap(Box::new(s), 0, &mut counters));
+        o
+    } else if p.infinite && p.src_len == 7777 {
         let (s, o) = AgainSource::new(T2::from(5));
         blocks.push(wrap(Box::new(s), 0, &mut counters));
         o
